@@ -90,13 +90,19 @@ type c12Ln struct {
 	// outage: connections are accepted and closed at once, before the handshake
 	down      atomic.Bool
 	refusedAt []time.Time
-	all       []*c12Conn
+	// black hole, applied to connections accepted from now on: 1 = TCP accept only,
+	// 2 = the first bytes of the handshake answer and nothing more, 3 = handshake
+	// answered, then silence (nothing is ever written again).  A held connection
+	// that the client gives up is recorded in refusedAt.
+	hs  atomic.Int32
+	all []*c12Conn
 }
 
 type c12Conn struct {
-	c   net.Conn
-	tx  cipher.Stream
-	wmu sync.Mutex
+	c    net.Conn
+	tx   cipher.Stream
+	wmu  sync.Mutex
+	mute bool // writes are dropped
 }
 
 func newC12Server(nconn int) (*c12Server, error) {
@@ -157,6 +163,21 @@ func (l *c12Ln) serve(c net.Conn) {
 		c.Close()
 		return
 	}
+	mode := l.hs.Load()
+	hold := func() {
+		l.mu.Lock()
+		l.all = append(l.all, &c12Conn{c: c, mute: true})
+		l.mu.Unlock()
+		io.Copy(io.Discard, c) // until the client (or close()) ends it
+		l.mu.Lock()
+		l.refusedAt = append(l.refusedAt, time.Now())
+		l.mu.Unlock()
+		c.Close()
+	}
+	if mode == 1 {
+		hold()
+		return
+	}
 	req := make([]byte, 256)
 	c.SetReadDeadline(time.Now().Add(5 * time.Second))
 	if _, err := io.ReadFull(c, req); err != nil {
@@ -188,6 +209,15 @@ func (l *c12Ln) serve(c net.Conn) {
 	}
 	rx := c12CTR(params[32:64], params[80:96]) // the client's tx
 	fc := &c12Conn{c: c, tx: c12CTR(params[0:32], params[64:80])}
+	if mode == 2 {
+		if p, err := liteclient.NewPacket(nil); err == nil {
+			b := liteclient.VerifMarshalPacket(p)
+			fc.tx.XORKeyStream(b, b)
+			c.Write(b[:10])
+		}
+		hold()
+		return
+	}
 	l.mu.Lock()
 	l.all = append(l.all, fc)
 	l.mu.Unlock()
@@ -195,6 +225,7 @@ func (l *c12Ln) serve(c net.Conn) {
 		return
 	}
 	l.mu.Lock()
+	fc.mute = mode == 3
 	l.cur = fc
 	l.gen++
 	l.upAt = append(l.upAt, time.Now())
@@ -289,6 +320,9 @@ func (fc *c12Conn) send(payload []byte) error {
 	b := liteclient.VerifMarshalPacket(p)
 	fc.wmu.Lock()
 	defer fc.wmu.Unlock()
+	if fc.mute {
+		return nil
+	}
 	fc.tx.XORKeyStream(b, b)
 	_, err = fc.c.Write(b)
 	return err
